@@ -51,6 +51,7 @@ type eqOutcome struct {
 	Pre          map[string]string
 	ExpectReject bool
 	Probe        bool // not a counterexample found by the solver: an instance of a path ShSem could not interpret
+	PerClass     bool // probe instances enumerated per character class: classified like solver-found counterexamples
 }
 
 type eqOpts struct {
@@ -267,7 +268,23 @@ func bashEquiv(r *Run, c *gosym.Ctx, sh Shape, o eqOpts) (out eqOutcome) {
 	}
 	// the real code; if the engine cannot interpret it on this path, one concrete instance is probed natively
 	c.ProbeFn = func(m map[string]uint64) interface{} {
-		x := mkOutcome("the engine cannot interpret the real code on this path: concrete probe of one instance", m)
+		const why = "the engine cannot interpret the real code on this path: concrete probe"
+		if o.ByCharClass {
+			// one instance per character class of the data bytes, classified like a solver-found counterexample
+			// (so that a class listed as known stays a known finding)
+			saved := out
+			if finish(why+" of one instance per character class") && out.Kind == "diff" {
+				x := out
+				out = saved
+				x.Probe, x.PerClass = true, true
+				for i := range x.More {
+					x.More[i].Probe, x.More[i].PerClass = true, true
+				}
+				return x
+			}
+			out = saved
+		}
+		x := mkOutcome(why+" of one instance", m)
 		x.Probe = true
 		return x
 	}
@@ -371,6 +388,15 @@ func bashEquiv(r *Run, c *gosym.Ctx, sh Shape, o eqOpts) (out eqOutcome) {
 	if shUnsup != "" {
 		// The script uses something outside the modelled Bash subset (for instance after a refactoring of a
 		// template). The path cannot be decided symbolically; one concrete instance of it is probed on the real bash.
+		if o.ByCharClass {
+			if finish("ShSem cannot interpret the script ("+shUnsup+"): concrete probe of one instance per character class") && out.Kind == "diff" {
+				out.Probe, out.PerClass = true, true
+				for i := range out.More {
+					out.More[i].Probe, out.More[i].PerClass = true, true
+				}
+				return
+			}
+		}
 		res, m := c.Sat()
 		if res == sym.Sat {
 			out = mkOutcome("ShSem cannot interpret the script ("+shUnsup+"): concrete probe of one instance", m)
@@ -596,6 +622,7 @@ type charClass struct{ name, chars string }
 var charClasses = []charClass{
 	{"dquote", "\""}, {"backslash", "\\"}, {"dollar", "$"}, {"backquote", "`"}, {"newline", "\n"}, {"tab", "\t"},
 	{"blank", " "}, {"glob", "*?["}, {"dash", "-"}, {"shellmeta", ";&|<>()'#~{}!=]"},
+	{"punct", "%+,./:@^_"},
 }
 
 // charClassOf returns the first special class present in the data ("plain" when none is).
